@@ -1267,6 +1267,15 @@ func ExprKey(v ssa.Value) string {
 		return ExprKey(x.X)
 	case *ssa.MakeInterface:
 		return ExprKey(x.X)
+	case *ssa.Call:
+		// side-effect free getters (protobuf style Get*, String): two calls with equal operands denote the same value
+		if n := MethodName(&x.Call); (strings.HasPrefix(n, "Get") || n == "String") && x.Call.StaticCallee() != nil {
+			parts := []string{}
+			for _, a := range Args(&x.Call) {
+				parts = append(parts, ExprKey(a))
+			}
+			return "call:" + CalleeName(&x.Call) + "(" + strings.Join(parts, ",") + ")"
+		}
 	}
 	if p, ok := AccessPath(v); ok {
 		return p
@@ -1282,43 +1291,29 @@ func ReachableAssuming(fn *ssa.Function, v ssa.Value, k constant.Value, target s
 	if len(fn.Blocks) == 0 {
 		return false
 	}
-	seen := map[*ssa.BasicBlock]bool{}
-	var walk func(b *ssa.BasicBlock) bool
-	walk = func(b *ssa.BasicBlock) bool {
-		if seen[b] {
-			return false
+	key := ExprKey(Strip(v))
+	assume := func(x ssa.Value) (bool, bool) {
+		bo, ok := x.(*ssa.BinOp)
+		if !ok || (bo.Op != token.EQL && bo.Op != token.NEQ) {
+			return false, false
 		}
-		seen[b] = true
-		if b == target.Block() {
-			return true
+		var c *ssa.Const
+		var other ssa.Value
+		if cc, ok := bo.Y.(*ssa.Const); ok {
+			c, other = cc, bo.X
+		} else if cc, ok := bo.X.(*ssa.Const); ok {
+			c, other = cc, bo.Y
 		}
-		succs := b.Succs
-		if ifi, ok := b.Instrs[len(b.Instrs)-1].(*ssa.If); ok {
-			if bo, ok := ifi.Cond.(*ssa.BinOp); ok && (bo.Op == token.EQL || bo.Op == token.NEQ) {
-				var c *ssa.Const
-				var other ssa.Value
-				if cc, ok := bo.Y.(*ssa.Const); ok {
-					c, other = cc, bo.X
-				} else if cc, ok := bo.X.(*ssa.Const); ok {
-					c, other = cc, bo.Y
-				}
-				if c != nil && c.Value != nil && SameValue(Strip(other), Strip(v)) {
-					if constant.Compare(k, bo.Op, c.Value) {
-						succs = b.Succs[:1]
-					} else {
-						succs = b.Succs[1:2]
-					}
-				}
-			}
+		if c == nil || c.Value == nil {
+			return false, false
 		}
-		for _, s := range succs {
-			if walk(s) {
-				return true
-			}
+		o := Strip(other)
+		if SameValue(o, Strip(v)) || (key != "" && ExprKey(o) == key) {
+			return constant.Compare(k, bo.Op, c.Value), true
 		}
-		return false
+		return false, false
 	}
-	return walk(fn.Blocks[0])
+	return FlowAssume(fn.Blocks[0], assume).Reaches(target)
 }
 
 // DerivesFrom reports whether target is among the values root is computed from, walking backwards
